@@ -59,6 +59,8 @@ type Scenario struct {
 	WQ        int                       `json:"write_queue"`
 	MaxSize   int                       `json:"max_payload"`
 	Yields    map[string]core.YieldSpec `json:"yields,omitempty"`
+	SimLocks  bool                      `json:"sim_locks,omitempty"`
+	IdleS     int                       `json:"idle_s,omitempty"` // Server.IdleTimeout (0 = default)
 	ClockOffS int                       `json:"clock_off_s"`
 	// HasBack / BackAt (source stream): the stream's description also holds a back channel at this
 	// position; the readers do not ask for back channels, so they neither see it nor may ever be
@@ -218,6 +220,33 @@ func gen(seed uint64, tier string) Scenario {
 			}
 		}
 	}
+	// holds between any two statements of pkg/conn's read / write functions (no lock is held there):
+	// a response and a frame written by two goroutines must each reach the connection in one piece
+	// (hash-derived so that no other choice moves)
+	if core.HS(seed, "c01.autoconn", "", 0)%100 < 25 {
+		if sc.Yields == nil {
+			sc.Yields = map[string]core.YieldSpec{}
+		}
+		sc.Yields["auto:conn:"] = core.YieldSpec{Prob: 0.04, Hot: true}
+		sc.Yields["auto:bytecounter:"] = core.YieldSpec{Prob: 0.04, Hot: true} // the writer underneath pkg/conn
+		// (the WebSocket tunnel writes through it with its mutex held: simulation-aware locks)
+		sc.SimLocks = true
+		// ... and requests answered while media flows: a short session timeout makes the readers send
+		// keep-alives every second, and the stream lasts a few seconds
+		sc.IdleS = 6
+		// (a reader left paused would sit idle - a paused client sends no keep-alives - and be
+		// disconnected after IdleTimeout, legitimately: scripts end playing in these runs)
+		for i := range sc.Readers {
+			scr := sc.Readers[i].Script
+			for len(scr) > 0 && scr[len(scr)-1].Op == "pause" {
+				scr = scr[:len(scr)-1]
+			}
+			sc.Readers[i].Script = scr
+		}
+		if sc.Packets*sc.IntUS < 3000000 {
+			sc.IntUS = 3000000/sc.Packets + 1
+		}
+	}
 	// no holds inside the write queues in multicast runs: the multicast writer's queue is closed
 	// while the stream's mutex is held (see the same filter in C13 and DESIGN 2.3)
 	for _, rd := range sc.Readers {
@@ -358,7 +387,7 @@ func run(t *testing.T, sc Scenario) *core.Result {
 	if maxPayload < 10 {
 		maxPayload = 10
 	}
-	opts := sys.Options{Seed: sc.Seed, Net: sc.Net, Yields: sc.Yields, MaxSteps: 400000, Horizon: 20 * time.Minute,
+	opts := sys.Options{Seed: sc.Seed, Net: sc.Net, Yields: sc.Yields, SimLocks: sc.SimLocks, MaxSteps: 400000, Horizon: 20 * time.Minute,
 		ClockOffset: time.Duration(sc.ClockOffS) * time.Second, MaxHold: 2 * time.Second}
 	var summary map[string]any
 	res := sys.Run(t, opts, func(w *sys.World) {
@@ -373,6 +402,9 @@ func run(t *testing.T, sc Scenario) *core.Result {
 			WriteQueueSize:   sc.WQ,
 			Handler:          h,
 			MulticastIPRange: "224.1.0.0/16", MulticastRTPPort: 8002, MulticastRTCPPort: 8003,
+		}
+		if sc.IdleS > 0 {
+			srv.IdleTimeout = time.Duration(sc.IdleS) * time.Second
 		}
 		scheme := "rtsp"
 		if sc.Secure {
@@ -1149,7 +1181,7 @@ func init() {
 	f.Real = []string{"gortsplib.Server, ServerStream, ServerSession, ServerConn, Client (root package, all pkg/* and internal/* it uses)", "pion rtp/rtcp/srtp/sdp", "gorilla/websocket", "crypto/tls", "net/http request/response parsing", "bufio"}
 	f.Simulated = []string{"TCP and UDP sockets, listeners, port allocation (simnet through Server.Listen/ListenPacket/TLSListen and Client.DialContext/DialTLSContext/ListenPacket)", "clock, timers, deadlines (testing/synctest fake clock)", "entropy (crypto/rand.Reader, uuid)", "goroutine interleaving at the enabled yield sites"}
 	f.Excluded = []string{"pkg/multicast's raw-socket platform files (replaced in the scratch copy by a stand-in that binds the group address through the ListenPacket seam; everything above it - multicast writers, listeners, SETUP negotiation - is the real code; at most one multicast reader per run)", "back-pressure under TLS / WebSocket (window unbounded there, DESIGN 2.3)"}
-	f.Rule = "scenario = stream description (1..3 medias x 1..3 formats) x source (server-side writer | recording client over udp/tcp/http/ws) x 1..4 readers (udp/tcp/http/ws, plain or TLS+SRTP) with seeded join / pause / resume / leave scripts x packet sequence (sizes 10..max, seeded timestamps/markers, consecutive sequence numbers from a seeded start incl. wrap, arbitrary on reliable carriers) x fault mix (latency, chunking incl. 1-byte, UDP drop/dup/reorder/burst, bounded window + receiver stalls) x enabled yield sites; non-trivial = at least one packet delivered to a reader and (>= 1 fault kind other than plain delay fired or >= 1 yield site hit); distinct = distinct hash of the canonical event log"
+	f.Rule = "scenario = stream description (1..3 medias x 1..3 formats) x source (server-side writer | recording client over udp/tcp/http/ws) x 1..4 readers (udp/tcp/http/ws, plain or TLS+SRTP) with seeded join / pause / resume / leave scripts x (a quarter of the runs: simulation-aware locks, a yield point before every statement of pkg/conn and internal/bytecounter, IdleTimeout 6 s so that readers send keep-alives every second while media flows, streams of 3 s) x packet sequence (sizes 10..max, seeded timestamps/markers, consecutive sequence numbers from a seeded start incl. wrap, arbitrary on reliable carriers) x fault mix (latency, chunking incl. 1-byte, UDP drop/dup/reorder/burst, bounded window + receiver stalls) x enabled yield sites; non-trivial = at least one packet delivered to a reader and (>= 1 fault kind other than plain delay fired or >= 1 yield site hit); distinct = distinct hash of the canonical event log"
 	f.Assumptions = []string{
 		"packets still queued when the reader itself sends PAUSE/TEARDOWN are not 'missing' (the reader has left)",
 		"completeness is waived for a run in which a write-queue-full error was reported to the writer or to OnStreamWriteError",
